@@ -8,6 +8,24 @@ from lib import vf
 MAXINT = 9223372036854775807
 
 
+def _name_class(n):
+    """how a schema spells a name, relative to the Go identifier derived from it"""
+    cls = []
+    if n[:1].islower():
+        cls.append("lower-first")
+    elif n[:1].isupper():
+        cls.append("upper-first")
+    if "_" in n:
+        cls.append("underscore")
+    if any(c.isdigit() for c in n):
+        cls.append("digit")
+    if len(n) > 1 and n.isupper():
+        cls.append("all-caps")
+    elif any(a.isupper() and b.isupper() for a, b in zip(n, n[1:])):
+        cls.append("initialism")
+    return "+".join(cls) or "other"
+
+
 def _calc_line(r):
     return "calc %s %s %s %s" % (r[1], r[2], r[3], r[4])
 
@@ -21,10 +39,10 @@ def run(ctx):
     ]
     ctx.assumptions += [
         "generated servers: the binding of schema fields to Go fields is the one DECLARED by the project the harness writes (an explicit @goField(name:) / fieldName / a name equal up to case and underscores, each matching exactly one field or method of the hand-written model); that gqlgen's binder resolves these declarations to that Go field is observed (the entries of the generated ComplexityRoot are compared with the declared ones), not modelled",
-        "the template part of the generated Complexity() switch (case labels per group, the entry called, `break` on a nil function) is a hand-written model (Model/ComplexitySwitch.lean) over the regenerated UniqueFields, tied by direct calls of the really generated Complexity() for every (type, field) of every generated project; argument unmarshalling (field_*_args) is executed, not modelled",
+        "the template part of the generated Complexity() switch: the switch tag, the spelling of the case labels, the guards, the selectors of the nil check / the call and the ComplexityRoot declaration are regenerated per template flavour (Gen/ComplexityLabels.lean, go/extract/complexitylabels.go; text/template/parse) and proved Faithful (Props/C14Label.lean); the nesting of the ranges (`case` before the first member, body after the last) is recognised by the extractor (anything else is refused) and modelled by hand (Model/ComplexityLabel.lean, Model/ComplexitySwitch.lean) over the regenerated UniqueFields, tied by direct calls of the really generated Complexity() for every (type, field) of every generated project; argument unmarshalling (field_*_args) is executed, not modelled",
     ]
-    ok_extract = ctx.extract("SafeAdd", "UniqueFields")
-    proved = ok_extract and ctx.prove(props=["GqlgenVerif.Props.C14", "GqlgenVerif.Props.C14Gen"])
+    ok_extract = ctx.extract("SafeAdd", "UniqueFields", "ComplexityLabels")
+    proved = ok_extract and ctx.prove(props=["GqlgenVerif.Props.C14", "GqlgenVerif.Props.C14Gen", "GqlgenVerif.Props.C14Label"])
     if ok_extract and not proved:
         ctx.cov["proof_failure"] = ctx.proof_failure
     have_model = ok_extract and getattr(ctx, "driver_ok", False)
@@ -252,12 +270,14 @@ def run(ctx):
         "distinct_nontrivial": len(nontriv),
         "rule": "safeAdd: exhaustive 20x20 boundary grid (min, min+1, +-max/2, -1..3, 2^31, 2^32, max/2-1..max/2+2, max-2..max) + seeded pairs around the overflow boundary; "
                 "Calculate: 22 directed operations x 18+8 directed custom tables (+ custom pinned to children's cost -1/0/+1) + seeded random operations over 2 probe schemas + seeded random schemas "
-                "(fragments nested and reused, inline fragments with/without type condition, interfaces incl. one without implementors, unions, aliases, Int arguments literal/null/variable/absent with defaults, "
+                "(type and field names spelled with leading lower case / capitals / underscores / digits / initialisms; fragments nested and reused, inline fragments with/without type condition, interfaces incl. one without implementors, unions, aliases, Int arguments literal/null/variable/absent with defaults, "
                 "@skip/@include, __schema/__type/__typename, mutations) x random custom tables; gate: every directed case at limit c-1/c/c+1 and random cases at c-1/c/c+1 + extreme limits, "
                 "through executor.New, handler.New+transport.POST and handler.New+transport.GET (operationName given / omitted, multi-operation documents); seeded random schemas; metamorphic pairs (one selection added at the top level); malformed: mutated operations. Non-trivial = distinct case reaching a branch beyond default costs "
                 "(custom used/ignored/negative/equal, saturation, interface, fragment, variable, __Schema skip), every safeAdd pair and every gate case; "
                 "generated servers: directed projects of corpus/C14/genprojects.txt + seeded random projects (2..4 hand-written models, groups of 1..3 schema fields bound to one Go struct field / method through "
-                "@goField(name:), fieldName configuration or names equal up to case/underscore, members shuffled so the by-name member is first/middle/last, forced resolvers next to a shared name, scalar/object-typed/method-with-arguments groups), "
+                "@goField(name:), fieldName configuration or names equal up to case/underscore, members shuffled so the by-name member is first/middle/last, forced resolvers next to a shared name, scalar/object-typed/method-with-arguments groups; "
+                "NAMES: every type (objects, interface, union, renamed query/mutation roots) and every field respelled per project: leading lower case / capital, snake_case, ALL CAPS, digits, initialisms, trailing underscore, "
+                "spellings that collide after Go mangling = one shared entry; every random project has a hand-written and a generated model whose type name starts lower-case; directed project d3), "
                 "each generated in both layouts (generated!.gotpl single file; root_.gotpl follow-schema + function syntax): Complexity() asked directly for every (type, field) incl. interfaces/unions/__Type/unknown names, "
                 "every field of every hand-written model x one table per shared entry, corpus operations x corpus tables, seeded random operations x random ComplexityRoot tables, the gate at c-1/c/c+1 with counting resolvers",
         "input_distribution": dict(branch),
@@ -330,7 +350,8 @@ def run_generated(ctx, have_model, branch, nontriv):
         return "generated server %s (go/genout/c14/%s: schema.graphql + gqlgen.yml + hand.go, generated now by api.Generate from /repo, layout %s)" % (
             p, p, "follow-schema (root_.gotpl)" if p.endswith("f") else "single-file (generated!.gotpl)")
 
-    # ---- model side, one driver run; both layouts of a project share their lines
+    # ---- model side, one driver run; each layout is asked of the STRING switch of its own template flavour
+    # (labels, tag, guards and selectors regenerated from generated!.gotpl / root_.gotpl: Gen/ComplexityLabels.lean)
     lines, idx = [], {}
 
     def ask(line):
@@ -346,9 +367,9 @@ def run_generated(ctx, have_model, branch, nontriv):
             continue
         for r in exp[p]["rows"]:
             if r[0] == "gcx":
-                jobs.append((p, r, ask("gencx %s %s %s" % (exp[p]["objs"], r[3], r[4]))))
+                jobs.append((p, r, ask("gencxl %s %s %s %s" % (p[-1], exp[p]["objs"], r[3], r[4]))))
             elif r[0] == "gcalc":
-                jobs.append((p, r, ask("gencalc %s %s %s %s %s" % (r[4], r[5], r[3], r[7], r[8]))))
+                jobs.append((p, r, ask("gencalcl %s %s %s %s %s %s" % (p[-1], r[4], r[5], r[3], r[7], r[8]))))
             else:
                 jobs.append((p, r, None))
     model = ctx.driver("c14", lines) if (have_model and lines) else None
@@ -416,6 +437,10 @@ def run_generated(ctx, have_model, branch, nontriv):
             if shared:
                 st["shared_entry_calls"] += 1
             branch["gen:switch:" + ("shared-entry" if shared else ("own-entry" if want != "-" else "no-entry"))] += 1
+            if want != "-":
+                # the NAMES dimension: how the schema spells the type and the field whose clause is asked for
+                branch["gen:type-name:" + _name_class(t)] += 1
+                branch["gen:field-name:" + _name_class(f)] += 1
             nontriv.add("gx%s|%s|%s" % (p, t, f))
             if impl != want or nilok != "0" or (ms is not None and ms != want) or (mm is not None and mm != impl):
                 failing = impl != want or nilok != "0"
